@@ -1,4 +1,4 @@
-CONSTANTS MaxN = 4 MaxParents = 2 MaxDup = 0 Limits <- LimitsS2 Sizes <- SizesQ BigSize = 30 FailKinds <- FailNone
+CONSTANTS MaxN = 4 MaxParents = 2 MaxDup = 0 Limits <- LimitsS2 Sizes <- SizesQ BigSize = 30 MaxExt = 0 FailKinds <- FailNone
 SPECIFICATION Spec
 INVARIANT EmitScen
 CHECK_DEADLOCK FALSE
